@@ -6,7 +6,15 @@ from hist_cases import vec_geom
 from shapes import INTS, align, ssize, min_size
 
 
+def nested(t):
+    """a struct / enum whose last fields lead to a container (mutated in place through the mapped value)"""
+    import hist_cases
+    return t[0] in ('struct', 'enum') and hist_cases.nested_plan(t) is not None
+
+
 def applies(pid, t):
+    if pid in ('C14', 'C05') and nested(t):
+        return True
     if pid == 'C17':
         import shapes
         return t[0] in ('vec', 'str', 'flex') and shapes.declared_portable(t)
@@ -249,10 +257,33 @@ def c13(t, md, steps, flags):
     return out
 
 
+def siblings(view):
+    """the printed fields of a struct / enum value except the last one"""
+    try:
+        _, items = items_of(view)
+    except AssertionError:
+        return None
+    return [strip_caps(x) for x in items[:-1]]
+
+
 def c14(t, md, steps, flags):
     out = []
     if 'OOB-WRITE' in flags:
         out.append('an operation wrote outside the slice handed to the library')
+    if nested(t):
+        # mutating the nested container must not change a sibling field, and the value must stay valid
+        for i in range(1, len(steps)):
+            prev, st = steps[i - 1], steps[i]
+            op = md['ops'][i - 1] if i - 1 < len(md['ops']) else '?'
+            if st.get('val') != 'ok':
+                if not (op.startswith('(editassign') and str(st.get('res', '')).startswith('err:')):
+                    out.append('step %d %s on the nested container: the value no longer validates: %s'
+                               % (i, op[:60], st.get('val')))
+                break
+            a, b = siblings(prev.get('view', '')), siblings(st.get('view', ''))
+            if a is not None and b is not None and a != b:
+                out.append('step %d %s on the nested container changed a sibling field: %s -> %s' % (i, op[:60], a, b))
+                break
     for i, st in enumerate(steps):
         if st.get('buf') and len(st['buf']) != len(steps[0].get('buf', st['buf'])):
             out.append('step %d: the buffer length changed' % i)
